@@ -13,6 +13,7 @@ from spec import format as F
 from . import links as L
 from . import rw
 
+TECHNIQUE = "contract-based deductive verification of the SLNK/SLnK codecs (z3); end-of-file reconstruction as labelled small-scope bounded stand-in"
 LEVEL = "other"
 LEVEL_TEXT = (
     "Mixed. Deductive: the SLNK/SLnK codecs (writer emission rule, reader strip-trailing loops) for link tables of every length up to "
